@@ -232,6 +232,10 @@ theorem setMark_sim {bm : String → Bool} {l l' : List (String × Option Elem)}
 
 theorem TSim.cur_eq {g bm ty t t'} (h : TSim g bm ty true t t') : t'.cur = t.cur := optR_cur_true h.cur
 
+theorem TSim.cur_isSome_eq {g bm ty b t t'} (h : TSim g bm ty b t t') : t'.cur.isSome = t.cur.isSome := by
+  have h' := h.cur
+  cases hc : t.cur <;> cases hc' : t'.cur <;> simp [hc, hc', OptR] at h' ⊢
+
 theorem TSim.doc_eq {g bm ty b t t'} (h : TSim g bm ty b t t') (f : String)
     (hc : keyIsCurrent f = true → b = true) (hm : bm (nsName f) = true) : t'.doc f = t.doc f := by
   unfold Traveler.doc
@@ -537,9 +541,15 @@ def fieldsCur (keys : List String) (c : Option Elem) : Elem :=
   let ode : Elem := { gid := cde.gid, label := cde.label, frm := cde.frm, to := cde.to, data := data0 }
   if incl.isEmpty then ode else { ode with data := includeFields cde incl }
 
-theorem stepFields_eq (keys : List String) (t : Traveler) :
-    stepFields keys t = { cur := some (fieldsCur keys t.cur), marks := t.marks, path := [PathEl.vertex ""] } := by
+theorem stepFields_none (keys : List String) (t : Traveler) (h : t.cur = none) :
+    stepFields keys t = t := by
+  unfold stepFields
+  rw [h]
+
+theorem stepFields_eq (keys : List String) (t : Traveler) (c : Elem) (h : t.cur = some c) :
+    stepFields keys t = { cur := some (fieldsCur keys (some c)), marks := t.marks, path := [PathEl.vertex ""] } := by
   unfold stepFields fieldsCur
+  rw [h]
   rfl
 
 theorem fieldsCur_loaded (keys : List String) (c : Option Elem) : (fieldsCur keys c).loaded = true := by
@@ -550,10 +560,18 @@ theorem fieldsCur_loaded (keys : List String) (c : Option Elem) : (fieldsCur key
 
 theorem stepFields_sim {g bm ty t t'} (h : TSim g bm ty true t t') (keys : List String) (b1 : Bool) :
     TSim g bm ty b1 (stepFields keys t) (stepFields keys t') := by
-  rw [stepFields_eq, stepFields_eq, h.cur_eq]
-  exact { path := rfl, count := rfl, render := rfl, sel := rfl, agg := rfl,
-          cur := ⟨fieldsCur_loaded _ _, Or.inl rfl⟩, marks := h.marks,
-          selLoaded := by intro l hl; simp at hl }
+  have hc := h.cur_eq
+  cases hcur : t.cur with
+  | none =>
+    -- a row without a current element is passed on as it is
+    rw [stepFields_none keys t hcur, stepFields_none keys t' (hc.trans hcur)]
+    exact { path := h.path, count := h.count, render := h.render, sel := h.sel, agg := h.agg,
+            cur := by rw [hcur, hc.trans hcur]; trivial, marks := h.marks, selLoaded := h.selLoaded }
+  | some c =>
+    rw [stepFields_eq keys t c hcur, stepFields_eq keys t' c (hc.trans hcur)]
+    exact { path := rfl, count := rfl, render := rfl, sel := rfl, agg := rfl,
+            cur := ⟨fieldsCur_loaded _ _, Or.inl rfl⟩, marks := h.marks,
+            selLoaded := by intro l hl; simp at hl }
 
 theorem setField_loaded (o : Elem) (f : String) (x : JV) : (setField o f x).loaded = o.loaded := by
   unfold setField
@@ -808,7 +826,7 @@ theorem step_sim (numOf : String → Option Int) (g : AGraph) (hg : g.WellFormed
     apply h.filter
     intro t t' ht
     unfold keepHasLabel
-    rw [ht.curLabel_eq]
+    rw [ht.curLabel_eq, ht.cur_isSome_eq]
   | hasId ids =>
     have h1 := needElement_ok hstep
     split at h1
